@@ -658,8 +658,17 @@ def generate(rng, tier, outdir):
     for _ in range(n_hist):
         do("hist", gen_hist(rng))
     # 6. cut the Moves and reconstruct (clause f)
-    for _ in range(n_e2e):
-        prog = gen_e2e(rng)
+    cut = lambda q: ["cut_wire", [], [q], []]  # noqa: E731
+    fixed_e2e = [
+        # interleaved markers on one qubit (the F1 pattern), generic rotations: 3 cuts
+        dict(qspec=[["reg", "a", 1], ["reg", "b", 1]], cspec=[], e2e=True,
+             instrs=[["ry", [0.7], [0], []], cut(0), ["cx", [], [0, 1], []], cut(1), ["ry", [0.4], [1], []], cut(0), ["rx", [1.1], [0], []],
+                     ["cx", [], [1, 0], []]]),
+        # marker first on its wire and first instruction; marker last on its wire
+        dict(qspec=[["loose", 2]], cspec=[], e2e=True,
+             instrs=[cut(0), ["ry", [0.7], [0], []], ["ry", [1.2], [1], []], ["crx", [0.9], [1, 0], []], cut(1)]),
+    ]
+    for prog in fixed_e2e + [gen_e2e(rng) for _ in range(n_e2e)]:
         n = prog_nq(prog)
         do("e2e", prog, fns=("cut_wires",), paulis=(all_paulis(n) if n <= 2 else weight1_paulis(n) + rand_paulis(rng, n, 4, phases=False)))
     # 7. edge cases
